@@ -1678,6 +1678,12 @@ func (v *VMValue) AsDictKey() (string, error) {
 }
 
 func ValueEqual(a *VMValue, b *VMValue, autoConvert bool) bool {
+	return valueEqualOnPath(a, b, autoConvert, map[[2]any]bool{})
+}
+
+// valueEqualOnPath: onPath 记录当前比较路径上的容器对，再次遇到同一对说明出现了循环引用，
+// 此时视为相等(其余部分已经在比较中)，避免无限递归
+func valueEqualOnPath(a *VMValue, b *VMValue, autoConvert bool, onPath map[[2]any]bool) bool {
 	if a == b {
 		return true
 	}
@@ -1693,8 +1699,14 @@ func ValueEqual(a *VMValue, b *VMValue, autoConvert bool) bool {
 			if len(arr1.List) != len(arr2.List) {
 				return false
 			}
+			pair := [2]any{arr1, arr2}
+			if onPath[pair] {
+				return true
+			}
+			onPath[pair] = true
+			defer delete(onPath, pair)
 			for index, i := range arr1.List {
-				if !ValueEqual(i, arr2.List[index], autoConvert) {
+				if !valueEqualOnPath(i, arr2.List[index], autoConvert, onPath) {
 					return false
 				}
 			}
@@ -1705,9 +1717,15 @@ func ValueEqual(a *VMValue, b *VMValue, autoConvert bool) bool {
 			if d1.Dict.Length() != d2.Dict.Length() {
 				return false
 			}
+			pair := [2]any{d1, d2}
+			if onPath[pair] {
+				return true
+			}
+			onPath[pair] = true
+			defer delete(onPath, pair)
 			isSame := true
 			d1.Dict.Range(func(key string, value *VMValue) bool {
-				isEqual := ValueEqual(value, d2.Dict.MustLoad(key), autoConvert)
+				isEqual := valueEqualOnPath(value, d2.Dict.MustLoad(key), autoConvert, onPath)
 				if !isEqual {
 					isSame = false
 					return false
